@@ -445,6 +445,9 @@ def judge(hist, obs, version, kind="base", persist="none"):
                     prop = "C10"
                 sp.flag(prop, "reply-differs", f"emitted {ob.sent!r}, prescribed {exp_sent!r}", at,
                         op=k)
+                if prop != "C05":
+                    # what goes out at a wake-up / for a stream request is a prescribed reply as well
+                    sp.flag("C05", "reply-differs", f"emitted {ob.sent!r}, prescribed {exp_sent!r}", at, op=k)
             if nocb and ob.cbs:
                 sp.flag("C04", "callback-without-callback", "a callback was recorded although none is configured", at)
             if not nocb and exp_cbs is not None and list(ob.cbs) != [tuple(c[:5]) + (str(c[5]),) for c in exp_cbs]:
